@@ -691,9 +691,9 @@ class __Class(_pre.Pregex):
         range_pattern = \
             r"(?:\\(?:\[|\]|\^|\$|\-|\/|[a-z]|\\)|[^\[\]\^\-\/\\])" + \
             r"-(?:\\(?:\[|\]|\^|\$|\-|\/|[a-z]|\\)|[^\[\]\^\-\/\\])"
-        ranges = set(_re.findall(range_pattern, classes))
-        classes = _re.sub(pattern=range_pattern, repl="", string=classes)
-        return (ranges, set(_re.findall(r"\\?.", classes, flags=_re.DOTALL)))
+        # Scan from left to right so that escape sequences are never split in half.
+        classes = _re.findall(f"({range_pattern})|(\\\\?.)", classes, flags=_re.DOTALL)
+        return (set(rng for rng, _ in classes if rng), set(c for _, c in classes if c))
 
     
     @staticmethod
